@@ -26,7 +26,7 @@ def scenarios(ctx):
     quick = ctx.quick
     out = []
     K = [{"k": 1}]
-    KT = [{"k": 1, "r": 1}, {"k": 1, "f": 1}]
+    KT = [{"k": 1, "r": 1}]
     tail = dict(h_conv=0.5, stable=0.1, stop_bound=30.0, explore_until=2.2, kill=False, coord_move=False, stop_alt=True,
                 probe_after_stop=True, checks=["c19"], errs={}, faults=["drop-before", "drop-after", "lose"], k_mid=True)
     for mname, mode in MODES.items():
@@ -52,7 +52,9 @@ def scenarios(ctx):
                 gc.two_members(**dict(tail, errs={"OffsetCommit": [27]}, fault_apis=["OffsetCommit"], faults=["err"], k_mid=False, explore_until=1.9)),
                 [{"k": 1, "f": 1}]))
     if not quick:
-        out.append(("group-two-faults", scen_group.make, gc.two_members(**dict(tail, errs=gc.errs())), KT))
+        out.append(("group-two-faults", scen_group.make,
+                    gc.two_members(**dict(tail, errs=gc.errs(), k_mid=False, explore_until=2.0,
+                                          fault_apis=["Heartbeat", "OffsetCommit", "JoinGroup", "SyncGroup", "LeaveGroup"])), [{"k": 1, "f": 1}]))
     base_f = {"faults": ["drop-before", "drop-after", "lose", "err"], "errs": {"Produce": [6, 7]}, "fault_apis": ["Produce", "Metadata"],
               "check_c01": False, "check_c02": False, "check_c19": True, "stop_gate": True}
     prog = [[(0, T), (0, T + 1)], [(0, T + 2), (1, T + 3)]]
